@@ -257,6 +257,27 @@ Definition has_candidate (g : grammar) (items : list item) (edges : list (sym * 
   acc_cand g items a || negb (match red_cands g items a with [] => true | _ => false end) ||
   match assoc_sym (T a) edges with Some _ => true | None => false end.
 
+(* ---- boolean forms of the theorems' side conditions (evaluated on every dump) ---- *)
+
+Fixpoint nodupb {A : Type} (eqb : A -> A -> bool) (l : list A) : bool :=
+  match l with
+  | [] => true
+  | x :: l' => negb (existsb (eqb x) l') && nodupb eqb l'
+  end.
+Definition key_eqb (x y : N * nat) : bool := N.eqb (fst x) (fst y) && Nat.eqb (snd x) (snd y).
+
+Definition wf_state_b (g : grammar) (items : list item) (edges : list (sym * N)) : bool :=
+  nodupb key_eqb (map (fun i => (it_p i, it_d i)) items) &&
+  forallb (fun i => (it_d i <=? length (rhs g (it_p i)))%nat && nodupb N.eqb (it_la i)) items &&
+  nodupb sym_eqb (map fst edges) &&
+  negb (existsb (sym_eqb (T (eof g))) (map fst edges)).
+
+(* precedences given as association lists (the TP / PP sections of a dump) *)
+Definition precs_of (l : list (N * prec)) : precs := fun a => assocN a l.
+Definition prec_consistent_b (tl pl : list (N * prec)) : bool :=
+  forallb (fun x => forallb (fun y => negb (N.eqb (p_level (snd x)) (p_level (snd y))) ||
+                                      assoc_eqb (p_kind (snd x)) (p_kind (snd y))) pl) tl.
+
 (* ---- precedences from declarations ----------------------------------------- *)
 
 (* one %left / %right / %nonassoc line: kind and tokens *)
@@ -322,16 +343,6 @@ Definition prod_prec_spec (tp : precs) (precname : option N) (syms : list sym) (
   | None => (exists t, is_last_token syms t /\ r = tp t) \/
             ((forall x, In x syms -> exists q, x = R q) /\ r = None)
   end.
-(* executable form of the spec used by the correspondence run *)
-Definition prod_prec_ref (tp : precs) (precname : option N) (syms : list sym) : option prec :=
-  match precname with
-  | Some n => tp n
-  | None => match filter (fun x => match x with T _ => true | R _ => false end) syms with
-            | [] => None
-            | x :: l => match last l x with T t => tp t | R _ => None end
-            end
-  end.
-
 (* ---- %expect ----------------------------------------------------------------- *)
 
 Definition default0 (o : option nat) : nat := match o with Some n => n | None => 0%nat end.
